@@ -107,16 +107,20 @@ def run(tier):
             v[2] = "?"
         t2 = T.from_json(tj)
         qitems.append({"iupac": T.render(t2), "queries": [], "self": True, "subchains": subchains(t2), "kw": {"tree_only": True}})
+    # glycans written with their reducing-end anomer contain themselves (all matching modes) and their sub-chains
+    n_undet = len(qitems)
+    for t in trees[:(14 if tier == "quick" else 150)]:
+        qitems.append({"iupac": T.render(t) + " " + r.choice("ab"), "queries": [], "self": True, "subchains": subchains(t), "kw": {}})
     qouts = C.run_impl_parallel("queries", qitems, extra={"tmp": os.path.join(C.BUILD, "tmp_c16q")}) if qitems else []
-    for it_, o_ in zip(qitems, qouts):
-        report.case("undetermined:" + it_["iupac"], True)
+    for qi_, (it_, o_) in enumerate(zip(qitems, qouts)):
+        report.case(("undetermined:" if qi_ < n_undet else "anomer-suffix:") + it_["iupac"], True)
         if o_.get("exc"):
             continue
         if o_.get("self") and (any(isinstance(x, str) for x in o_["self"]) or min(o_["self"]) < 1):
-            report.fail({"site": "count", "kind": "self-not-contained", "linkage": "undetermined"}, {"glycan": it_["iupac"], "counts_of_itself": o_["self"]})
+            report.fail({"site": "count", "kind": "self-not-contained", "linkage": "undetermined" if qi_ < n_undet else "written-root-anomer"}, {"glycan": it_["iupac"], "counts_of_itself": o_["self"]})
         for q, (c1, c2) in o_.get("sub", {}).items():
             if isinstance(c1, str) or isinstance(c2, str) or c1 < 1 or c2 < 1:
-                report.fail({"site": "count", "kind": "own-subchain-not-found", "linkage": "undetermined"}, {"glycan": it_["iupac"], "subchain": q, "counts": [c1, c2]})
+                report.fail({"site": "count", "kind": "own-subchain-not-found", "linkage": "undetermined" if qi_ < n_undet else "written-root-anomer"}, {"glycan": it_["iupac"], "subchain": q, "counts": [c1, c2]})
     outs = C.run_impl_parallel("queries", items, extra={"tmp": os.path.join(C.BUILD, "tmp_c16")})
     # stand-alone molecules of the prefixed queries and of the residues they are derived from
     alone_names = sorted(set(prefixed) | set(prefixed.values()))
@@ -186,7 +190,7 @@ def run(tier):
                     {"no_failing_input": True, "what_no_longer_checks": broken, "theorems": names_thm})
     report.assumptions = ["A-networkx: DiGraphMatcher enumerates the embeddings for multi-residue queries (only 'at least one' is checked for self and sub-chains)",
                           "formula / atoms / bonds / rings of summary() are compared with Spec/Chem functions of the Coq reading of the returned SMILES (rings = cyclomatic number)"]
-    extra = {"rule": "random glycans (1-8 residues) x single-residue queries from the glycan's own residues (also with the D-/L- series spelled out, own and opposite) and from the library x {none, some, every} x {nodes, leaves, root}; the glycan with itself and with its own sub-chains; summary(); save_dot",
+    extra = {"rule": "random glycans (1-8 residues) x single-residue queries from the glycan's own residues (also with the D-/L- series spelled out, own and opposite) and from the library x {none, some, every} x {nodes, leaves, root}; the glycan with itself and with its own sub-chains (also with an undetermined linkage, and written with its reducing-end anomer); summary(); save_dot",
              "single_residue_queries": nq, "print_assumptions": res.assumptions.get(f"Props/{PROP}.v", "").strip().splitlines()[-5:]}
     return report.finish("proof", ob, dis, names_thm, trusted=C.TRUSTED, extra=extra)
 
